@@ -331,6 +331,10 @@ where
 {
     fn read(&mut self, buf: &mut [u8]) -> std::io::Result<usize> {
         self.fill_inner()?;
+        // an exhausted source leaves an empty data buffer behind; move on to the MDC
+        if matches!(self, Self::Data { buffer, .. } if !buffer.has_remaining()) {
+            self.fill_inner()?;
+        }
         match self {
             Self::Prefix { prefix, .. } => {
                 // Prefix
